@@ -308,6 +308,28 @@ def replay_task(task, model):
     return S.run_concrete(task.harness, task.args, model)
 
 
+def concrete_fallback(task, seed, n=8):
+    """the symbolic engine could not execute the current text of a function (an operation its numpy / torch facades do not cover), which says nothing
+    about the code: the same harness -- same contract clauses -- is run NATIVELY on sampled inputs instead.  A clause that fails natively is a violation
+    with its input; otherwise the task is reported as degraded: its obligations are not discharged, and nothing is alarmed."""
+    import random
+    ran, bad = 0, None
+    for k in range(4 * n):
+        try:
+            rp = S.run_concrete(task.harness, task.args, None, rng=random.Random(seed * 7919 + k))
+        except BaseException as e:
+            return ran, dict(status='fallback crashed', error='%s: %s' % (type(e).__name__, e)), None
+        if rp.get('status') != 'ran':
+            continue
+        ran += 1
+        failed = [x for x in rp['checks'] if x['status'] == 'failed' and x['name'] not in task.expect_fail]
+        if failed:
+            return ran, rp, failed[0]
+        if ran >= n:
+            break
+    return ran, None, None
+
+
 def file_sha(path):
     try:
         return hashlib.sha256(open(path, 'rb').read()).hexdigest()[:16]
@@ -473,7 +495,7 @@ def main(argv=None):
     results = run_tasks(tasks)
     known = load_known()
 
-    violations, known_hits, undecided, errors, vacuity, unbound = [], [], [], [], [], []
+    violations, known_hits, undecided, errors, vacuity, unbound, degraded = [], [], [], [], [], [], []
     n_obl = {'U': 0, 'B': 0, 'R': 0}
     n_dis = {'U': 0, 'B': 0, 'R': 0}
     n_paths = 0
@@ -495,6 +517,13 @@ def main(argv=None):
         external.update(r.get('external', {}))
         if t.kind == 'rt':
             rt_cases += r['paths']
+        engine_limited = None
+        if t.kind == 'sym' and r['errors'] and all(str(e).startswith(('Unsupported:', 'exploration truncated')) for e in r['errors']):
+            # the engine could not execute the current source (operation outside its facades), or could not finish the paths within the budget sized for
+            # the pinned source: every clause on every explored path is still judged below; the unexplored rest is sampled natively
+            engine_limited = str(r['errors'][0])[:300]
+            r = dict(r, errors=[])
+            n_obl[t.tier] += 1
         if r['errors'] and all(str(e).startswith('Unbound:') for e in r['errors']):
             # the loop CONTRACT of a cut-loop task no longer binds to the function's current text (renamed loop-carried local, rewritten loop header,
             # new loop variable).  That is not evidence about the code: the obligation is counted as NOT discharged and reported, and the verdict is
@@ -525,11 +554,21 @@ def main(argv=None):
                     try:
                         rp = replay_task(t, w['model'])
                         confirmed = any(x['name'] == cname and x['status'] == 'failed' for x in rp.get('checks', []))
+                        if confirmed and cname == 'no-unexpected-exception':
+                            # the native run must raise the SAME kind of exception; a different one (e.g. float overflow at the solver's huge model
+                            # values, where the symbolic run computes over the reals) does not confirm the symbolic one
+                            kind = lambda d: str(d or '').split(':')[0].strip()
+                            confirmed = any(x['name'] == cname and x['status'] == 'failed' and kind(x.get('detail')) == kind(w.get('detail')) for x in rp.get('checks', []))
                     except BaseException as e:
                         rp = dict(status='replay crashed', error='%s: %s' % (type(e).__name__, e))
                 elif t.kind == 'rt':
                     confirmed = True
                 detail = w.get('detail') or ''
+                if cname == 'no-unexpected-exception' and t.kind == 'sym' and not confirmed and isinstance(rp, dict) and rp.get('status') == 'ran':
+                    # the exception was raised under symbolic execution only: the native run of the real code on an input of the SAME path raised nothing.
+                    # An exception is a deterministic function of the input, so this one belongs to the engine (facade coverage), not to the code.
+                    engine_limited = 'symbolic run raised, native run on an input of the same path did not raise it: ' + detail.split('\n')[0][:200]
+                    continue
                 kf = match_known(known, prop, cname, t.name, detail)
                 fn = re.sub(r'[^A-Za-z0-9_.-]+', '_', '%s__%s' % (t.name, cname))[:150] + '.json'
                 path = os.path.join('replays', prop, fn)
@@ -543,6 +582,21 @@ def main(argv=None):
                     known_hits.append((kf, rec))
                 else:
                     violations.append(rec)
+        if engine_limited:
+            ran, rp, bad = concrete_fallback(t, seed)
+            if bad is not None:
+                fn = re.sub(r'[^A-Za-z0-9_.-]+', '_', '%s__%s' % (t.name, bad['name']))[:150] + '.json'
+                path = os.path.join('replays', prop, fn)
+                json.dump(dict(property=prop, obligation=bad['name'], task=t.name, tier='R', note='native run of the task harness on sampled inputs (symbolic engine limited: %s)' % engine_limited,
+                               args=repr(t.args)[:2000], model=rp.get('inputs'), solver_detail=bad.get('detail'), failed_paths=1, replay=rp, confirmed_on_real_code=True,
+                               how_to_replay='./check replay %s' % path), open(os.path.join(ROOT, path), 'w'), indent=1, default=str)
+                rec = dict(task=t.name, obligation=bad['name'], path=path, confirmed=True, detail=str(bad.get('detail'))[:300])
+                kf = match_known(known, prop, bad['name'], t.name, str(bad.get('detail') or ''))
+                (known_hits.append((kf, rec)) if kf else violations.append(rec))
+            elif rp is not None or ran == 0:
+                errors.append('%s: engine limited (%s) and the native fallback could not run (%s)' % (t.name, engine_limited, rp or 'no feasible sampled input'))
+            else:
+                degraded.append('%s: %s; %d native runs of the same harness on sampled inputs passed every clause' % (t.name, engine_limited, ran))
         if len(samples) < 6 and r['checks']:
             samples.append(dict(task=t.name, tier=t.tier, note=t.note, paths=r['paths'],
                                 obligations={k: {kk: vv for kk, vv in v.items() if kk != 'witnesses'}
@@ -604,7 +658,7 @@ def main(argv=None):
         source_sha256={os.path.relpath(f, REPO): file_sha(f) for f in files},
         lemmas=list(getattr(mod, 'LEMMAS', [])),
         tasks=len(tasks), paths=n_paths, solver_queries=queries, solver_s=round(solver_s, 2), backends=backends,
-        sentinels=sent_report, undecided=undecided[:20], engine_errors=errors[:20], vacuity=vacuity[:20], unbound_contracts=unbound[:20],
+        sentinels=sent_report, undecided=undecided[:20], engine_errors=errors[:20], vacuity=vacuity[:20], unbound_contracts=unbound[:20], degraded_tasks=degraded[:40],
         known_findings=[dict(id=k.get('id'), obligation=r['obligation'], task=r['task']) for k, r in known_hits],
         not_decided=list(getattr(mod, 'NOT_DECIDED', [])),
     )
@@ -627,6 +681,8 @@ def main(argv=None):
         print('KNOWN-FINDING: property=%s %s [%s; obligation %s; replay %s]' % (prop, k.get('what'), k.get('id'), r['obligation'], r['path']))
     for u in unbound[:10]:
         print('UNBOUND-CONTRACT (cut-loop obligation not discharged; the whole-function tasks decide): %s' % u[:400])
+    for u in degraded[:10] + (['... and %d more' % (len(degraded) - 10)] if len(degraded) > 10 else []):
+        print('DEGRADED-TO-NATIVE-RUNS (obligations of the task not discharged; the symbolic engine cannot execute the current source): %s' % u[:400])
     for v in violations:
         print('VIOLATION property=%s replay=%s obligation=%s task=%s%s' % (
             prop, v['path'], v['obligation'], v['task'], '' if v['confirmed'] else ' no-failing-input-found'))
